@@ -22,7 +22,7 @@ if go test -vet=off -count=1 -skip TestManager $tp 2>&1 | grep -v '^ok\|no test 
 stub
 cp $SD/demo_test.go $place
 if go test -vet=off -count=1 -run 'Demo' ./$dir >$R/with.$$ 2>&1; then fail "demo passes with patch"; fi
-grep -q 'build failed\|cannot\|undefined' $R/with.$$ && { tail -5 $R/with.$$; fail "demo does not build"; }
+grep -q 'build failed' $R/with.$$ && { tail -5 $R/with.$$; fail "demo does not build"; }
 git checkout -q -- .
 stub
 if ! go test -vet=off -count=1 -run 'Demo' ./$dir >$R/without.$$ 2>&1; then tail -5 $R/without.$$; fail "demo fails without patch"; fi
